@@ -34,7 +34,11 @@ SPEC = {
     "level_note": ("trusts the model in vf/include/vf_metrics_model.h and harness/c17_observables.cc, gcc ASan/UBSan/TSan; "
                    "covers only generated histories (<=100 steps, <=3 instruments, <=3 callbacks each, <=6 attribute sets, "
                    "<=3 readers); the synchronous Gauge is only reached in the thorough tier (ABI v2 build); values are not "
-                   "judged in the racing run"),
+                   "judged in the racing run. Mutation self-test (scratch worktree): 10/10 breaking edits exit 1 - Observe "
+                   "only for the first reader, Observe once per storage, RemoveCallback comparing the function pointer "
+                   "only, delta stashed only for the calling reader (delta against another reader's last value), "
+                   "LastValue Merge keeping the older sample, callback invoked twice, CleanupCallback a no-op, "
+                   "RemoveCallback without the mutex (TSan), observed total stored as delta, RemoveCallback not erasing"),
     "rule": ("sequential case i = one seeded configuration (1..3 readers, delta/cumulative per instrument type, 1..2 meters, "
              "1..3 observable instruments of kind counter|up-down counter|gauge x int64|double, 1..3 callbacks per "
              "instrument on disjoint attribute sets, registered with one of two C functions so that several callbacks "
